@@ -135,8 +135,27 @@ def c19(res, rng, tier):
         elif io != re.sub(r" ~stale| #staleappend", "", mo):
             res.violation("correspondence: model %s vs implementation %s" % (mo[:120], io[:120]),
                           {"kind": "correspondence", "case": dlines[j], "model": mo[:300], "impl": io[:300]}, found_input=False)
+    # the same payload carried by two different opcodes in ONE pickle, and across two pickles of one stream: each
+    # occurrence keeps the type of its own opcode (nothing may be shared between them by content)
+    plines = []
+    for p in (b"key", b"", b"a", "é".encode(), b"x" * 40):
+        forms = [(op, str_form(op, p)[0]) for op in STR_OPS]
+        forms = [(op, f) for op, f in forms if f is not None]
+        for oa, fa in forms:
+            for ob, fb in forms:
+                if oa == ob: continue
+                for su in "01":
+                    plines.append("dec 0 %s 0 %s" % (su, (b"(" + fa + fb + fa + b"t.").hex()))
+                    plines.append("dec 1 %s 0 %s" % (su, (fa + b"." + fb + b"." + fa + b".").hex()))
+    pimpl = C.implrun(plines)
+    pmodel = C.modelrun(plines)
+    for l, io, mo in zip(plines, pimpl, pmodel):
+        if io != re.sub(r" ~stale| #staleappend", "", mo):
+            res.violation("one payload under two opcodes: Decode gives %s, each opcode on its own gives %s" % (io[:140], mo[:140]),
+                          {"kind": "impl", "case": l[:400], "observed": io[:400], "model": mo[:400], "cmd": "echo '%s' | harness/go/implrun" % l[:400]})
     res.coverage.update({
-        "evaluations": len(lines) + len(dlines), "distinct_nontrivial": nontriv,
+        "payload_under_two_opcodes": len(plines),
+        "evaluations": len(lines) + len(dlines) + len(plines), "distinct_nontrivial": nontriv,
         "rule": "integers: exhaustive -2^%d..2^%d, lattice +-2^k+d (k<=70), random 64-bit, LONG1 of every byte length 0..255, each in every opcode form able to carry it (INT, LONG, BININT1/2, BININT, LONG1, non-minimal LONG1); payloads (adversarial alphabet, 255/256/257 bytes, random) x 9 opcodes x StrictUnicode; PyDict: two representations of one integer as keys; non-trivial = case whose helper result matched the expectation" % ((12, 12) if tier == "quick" else (16, 16)),
         "programs": len(lines) + len(dlines), "disagreements_checked": len(lines) + len(dlines),
         "integers": len(zs), "payloads": len(payloads)})
